@@ -94,8 +94,18 @@ def nest(program: list[dict], gi: int, subset: list[str], rng: random.Random, wn
     inner_bound = []
     if bind_inner:
         # bindings of parameters consumed exclusively inside the subset move onto the inner graph
+        def outside_default(k: str) -> bool:
+            for n in outer_nodes:
+                ren = dict(n.get("inRen", []))
+                for prm in n.get("params", []):
+                    if ren.get(prm[0], prm[0]) == k and prm[1] is not None:
+                        return True
+            return False
+
         for k in list(bound_outer):
-            if k in iface_in and (k not in used_outside or bind_shared):
+            # (a shared binding moves inside only when no outside consumer has its own signature default for the name: with one, the
+            #  nested form is a different program — the outside consumer would take its default — and the constructor rejects the mix)
+            if k in iface_in and (k not in used_outside or (bind_shared and not outside_default(k))):
                 v = bound_outer.pop(k)
                 inner_bound.append([("in_" + k) if rename else k, v])
     if dup_bind:
